@@ -29,10 +29,9 @@ theorem WFD_struct {S : Schema} (h : WFD S = true) {n : String} {d : StructDef} 
 section
 variable {S : Schema} {T : String → Bytes → Bytes} {g fa : String → Val → Bool} {r : Rec}
 
-theorem ded_step (hwf : WF S = true) (hwd : WFD S = true) (sup : StructDef → Bool)
-    (hsup : ∀ d, sup d = true → d.noUnion = true) (hctx : DedCtx S g fa r) :
+theorem ded_step (hwf : WF S = true) (hwd : WFD S = true) (sup : StructDef → Bool) (hctx : DedCtx S g fa r) :
     DedCtx S (okStep S r g) (fitStep S sup r fa) (stepRec S T r) := by
-  refine ⟨step_ok hwf hctx.ok, ?_, ?_⟩
+  refine ⟨step_ok hwf hctx.ok, ?_, ?_, ?_⟩
   · -- whatever decodes is admissible and encodes
     intro ty bs v hdec hfit
     replace hdec : decTypeStep S T r ty bs = .ok v := hdec
@@ -104,15 +103,8 @@ theorem ded_step (hwf : WF S = true) (hwd : WFD S = true) (sup : StructDef → B
               simp only [hab, if_true, hfc, hna, Bool.false_eq_true, if_false] at hfit
               unfold fitStruct at hfit
               simpa using hfit
-            -- decode with the concrete class; the early-discriminant property comes from `sup`
-            have hdec' := hdec
-            unfold decConcrete at hdec'
-            obtain ⟨stc0, -, hdec'⟩ := bind_eq_ok.mp hdec'
-            obtain ⟨vs0, -, hdec'⟩ := bind_eq_ok.mp hdec'
-            simp only [Except.ok.injEq] at hdec'
-            have hearly : earlyFrom [] dcx.fields = true := hsup dcx (hfit' vs0 hdec'.symm).1
-            obtain ⟨vs, hv, hshape, hok, ⟨b, hb⟩, stc, hstc, -, hobj⟩ :=
-              ded_concrete hctx hwc hwdc hearly hdec (fun vs hv => (hfit' vs hv).2)
+            obtain ⟨vs, hv, hshape, hok, ⟨b, hb⟩, stc, hstc, hobj⟩ :=
+              ded_concrete hctx hwc hwdc hdec (fun vs hv => (hfit' vs hv).2)
             subst hv
             have hdm := header_disc (S := S) (T := T) (r := r) hwc.names hbase htake hcarry hsth hstc hobj hdisc
             refine ⟨?_, b, ?_⟩
@@ -133,14 +125,8 @@ theorem ded_step (hwf : WF S = true) (hwd : WFD S = true) (sup : StructDef → B
             simp only [hab', Bool.false_eq_true, if_false] at hfit
             unfold fitStruct at hfit
             simpa using hfit
-          have hdec' := hdec
-          unfold decConcrete at hdec'
-          obtain ⟨stc0, -, hdec'⟩ := bind_eq_ok.mp hdec'
-          obtain ⟨vs0, -, hdec'⟩ := bind_eq_ok.mp hdec'
-          simp only [Except.ok.injEq] at hdec'
-          have hearly : earlyFrom [] d.fields = true := hsup d (hfit' vs0 hdec'.symm).1
           obtain ⟨vs, hv, hshape, hok, ⟨b, hb⟩, -⟩ :=
-            ded_concrete hctx hwfd hwdd hearly hdec (fun vs hv => (hfit' vs hv).2)
+            ded_concrete hctx hwfd hwdd hdec (fun vs hv => (hfit' vs hv).2)
           subst hv
           exact ⟨by simpa [hab'] using hok, b, by simpa [hab', hshape] using hb⟩
   · -- the constructor of a decoded value
@@ -192,21 +178,33 @@ theorem ded_step (hwf : WF S = true) (hwd : WFD S = true) (sup : StructDef → B
           simp only [hab', Bool.false_eq_true, if_false] at hdec
           exact conc _ _ hdec
 
+  · -- enum values that decode are admitted
+    intro ty bs v w s bw ms hdec hf
+    replace hdec : decTypeStep S T r ty bs = .ok v := hdec
+    unfold decTypeStep at hdec
+    simp only [hf] at hdec
+    split at hdec
+    · rename_i hadm
+      simp only [Except.ok.injEq] at hdec
+      exact ⟨_, hdec.symm, hadm⟩
+    · cases hdec
+
 end
 
 /-- every fuel level: whatever decodes (with derived sizes that fit, from supported definitions) is
     admissible and encodes -/
 theorem recN_ded {S : Schema} (T : String → Bytes → Bytes) (hwf : WF S = true) (hwd : WFD S = true)
-    (sup : StructDef → Bool) (hsup : ∀ d, sup d = true → d.noUnion = true) :
+    (sup : StructDef → Bool) :
     ∀ n, DedCtx S (admN S T n) (fitN S T sup n) (recN S T n) := by
   intro n
   induction n with
   | zero =>
-    refine ⟨recN_ok T hwf 0, ?_, ?_⟩
+    refine ⟨recN_ok T hwf 0, ?_, ?_, ?_⟩
     · intro ty bs v h; cases h
     · intro ty bs v h; cases h
+    · intro ty bs v w s bw ms h; cases h
   | succ n ih =>
     rw [recN_succ]
-    exact ded_step hwf hwd sup hsup ih
+    exact ded_step hwf hwd sup ih
 
 end SymbolVerif.Codec
